@@ -32,7 +32,7 @@ COUNTS = {'quick': 220, 'thorough': 6000}
 BUDGET = {'quick': 110, 'thorough': 1500}
 TIMEOUT = 240
 SHRINK_LISTS = [['events']]
-EXPECTED_PROBES = ['smib_compared', 'linear_compared', 'switching_events', 'backeuler', 'unstable_reference_skipped', 'order_ratio_measured']
+EXPECTED_PROBES = ['inertia_altered_in_run', 'smib_compared', 'linear_compared', 'switching_events', 'backeuler', 'unstable_reference_skipped', 'order_ratio_measured']
 RULE = ('plans of class smib (seeded machine/network/loading + line-switching schedule) and linear (stock case + seeded perturbation '
         'direction); non-trivial = the error against the reference was measured at two step sizes; distinct = (class, method, number of '
         'events / case, step size, frequency)')
@@ -79,6 +79,10 @@ def elaborate(stub):
                 t = t + r.choice([2e-4, 5e-4, 1e-3])
             if t >= p['tf'] - 0.2:
                 break
+            if r.random() < 0.3:
+                # the inertia constant is changed during the run by a timed Alter device: from then on the new value governs
+                evs.append({'M': round(p['M'] * r.choice([0.5, 0.7, 1.5, 2.0]), 2), 't': float(t)})
+                continue
             on = [k for k in range(nl) if state[k]]
             off = [k for k in range(nl) if not state[k]]
             if off and (len(on) <= 1 or r.random() < 0.5):
@@ -114,7 +118,11 @@ def build_smib(p, tstep):
                       'fn': p['fn']})
     ss.add('GENCLS', {'idx': 'M2', 'bus': 2, 'gen': 'G2', 'M': 1e7, 'D': 0.0, 'xd1': 1e-6, 'ra': 0.0, 'Sn': 100.0, 'Vn': 20.0, 'fn': p['fn']})
     for j, e in enumerate(p['events']):
-        ss.add('Toggle', {'idx': 'T%d' % j, 'model': 'Line', 'dev': 'L%d' % e['line'], 't': e['t']})
+        if 'M' in e:
+            ss.add('Alter', {'idx': 'A%d' % j, 'model': 'GENCLS', 'dev': 'M1', 'src': 'M', 'attr': 'v', 'method': '=', 'amount': e['M'],
+                             't': e['t']})
+        else:
+            ss.add('Toggle', {'idx': 'T%d' % j, 'model': 'Line', 'dev': 'L%d' % e['line'], 't': e['t']})
     ss.setup()
     return ss
 
@@ -135,10 +143,12 @@ def swing_reference(p, V1, th1, t_eval):
     Eabs, d0 = abs(E), float(np.angle(E))
     Pm = (Eabs * 1.0 / (p['xd1'] + xeq())) * math.sin(d0)
 
+    inertia = {'M': p['M']}
+
     def rhs(t, z, X):
         d, w = z
         Pe = 0.0 if not np.isfinite(X) else Eabs / (p['xd1'] + X) * math.sin(d)
-        return [w0 * (w - 1.0), (Pm - Pe - p['D'] * (w - 1.0)) / p['M']]
+        return [w0 * (w - 1.0), (Pm - Pe - p['D'] * (w - 1.0)) / inertia['M']]
     evs = sorted(p['events'], key=lambda e: e['t'])
     bounds = [0.0] + [e['t'] for e in evs] + [max(t_eval) + 1e-9]
     z = np.array([d0, 1.0])
@@ -157,7 +167,10 @@ def swing_reference(p, V1, th1, t_eval):
                 done[sel] = True
             z = sol.y[:, -1]
         if k < len(evs):
-            status[evs[k]['line']] = 1 - status[evs[k]['line']]
+            if 'M' in evs[k]:
+                inertia['M'] = evs[k]['M']
+            else:
+                status[evs[k]['line']] = 1 - status[evs[k]['line']]
     return out_d, out_w, dict(Eabs=Eabs, d0=d0, Pm=Pm)
 
 
@@ -192,6 +205,7 @@ def run_smib(p):
             return v, probes, ['smib', 'init']
     probes['smib_compared'] = 1
     probes['switching_events'] = len(p['events'])
+    probes['inertia_altered_in_run'] = sum(1 for e in p['events'] if 'M' in e)
     probes['backeuler'] = int(p['method'] == 'backeuler')
     e1, e2 = res[0]['err'], res[1]['err']
     amp = res[0]['amp']
@@ -358,6 +372,8 @@ def simplify(plan):
 
 
 REGRESSION = [
+    {'property': PROP, 'cls': 'smib', 'seed': 43, 'fn': 60, 'M': 6.0, 'D': 1.0, 'xd1': 0.3, 'x_lines': [0.4, 0.4], 'p0': 0.8, 'v0': 1.0,
+     'method': 'trapezoid', 'tstep': 1 / 30, 'tf': 2.0, 'events': [{'line': 1, 't': 0.3}, {'M': 12.0, 't': 0.6}, {'line': 1, 't': 1.0}]},
     {'property': PROP, 'cls': 'smib', 'seed': 41, 'fn': 60, 'M': 6.0, 'D': 0.0, 'xd1': 0.3, 'x_lines': [0.4, 0.4], 'p0': 0.8, 'v0': 1.0,
      'method': 'trapezoid', 'tstep': 1 / 30, 'tf': 2.0, 'events': [{'line': 1, 't': 0.5}, {'line': 1, 't': 0.7}]},
     {'property': PROP, 'cls': 'smib', 'seed': 42, 'fn': 50, 'M': 8.0, 'D': 2.0, 'xd1': 0.25, 'x_lines': [0.5, 0.3, 0.6], 'p0': 0.6, 'v0': 1.02,
